@@ -49,6 +49,9 @@ func (c10) Gen(seed int64, tier string, avoid []string) *Plan {
 	}
 	p.PoolDrop = pick(r, 0, 0, 300)
 	cfg.LibStallUs = int64(pick(r, 0, 0, -1, 300, 3000))
+	if chance(r, 200) {
+		cfg.RTCPWErrAt = 1 + r.Intn(6)
+	}
 	topt := rigTrafficOpts{nackBias: chance(r, 500), lifecycle: chance(r, 500), observers: true, coincide: pick(r, 0, 300, 700)}
 	for _, k := range cfg.Kinds {
 		if k == "rtpfb" || k == "cc_noop" || k == "cc_leaky" {
